@@ -194,6 +194,3 @@ func c20Lifecycle(c *vk.Ctx) int {
 	}
 	return n
 }
-
-// c12Kill is filled in by the child-process crash test (thorough tier).
-func c12Kill(c *vk.Ctx, rng *rand.Rand) int { return 0 }
